@@ -39,7 +39,7 @@ GROUP = {
     'PerDomainMetric': WRAP,
 }
 
-SCORE_KINDS = ('random', 'ties', 'const', 'extreme', 'tie-extreme', 'ints')
+SCORE_KINDS = ('random', 'ties', 'const', 'extreme', 'tie-extreme', 'ints', 'signed-zeros', 'int-typed')
 
 
 def discover(fedjax):
@@ -69,7 +69,7 @@ def require_generators(found):
 
 # --------------------------------------------------------------------- scores
 def make_scores(rng, rows, C, kind):
-  """float32 [rows, C] finite scores of the requested kind, never NaN, never -0.0."""
+  """[rows, C] finite scores of the requested kind (float32; int32/int8 for 'int-typed'), never NaN; -0.0 only in 'signed-zeros'."""
   if kind == 'random':
     x = rng.randn(rows, C) * [0.3, 1.0, 5.0][rng.randint(3)]
   elif kind == 'ties':
@@ -84,6 +84,14 @@ def make_scores(rng, rows, C, kind):
     x = vals[rng.randint(4, size=(rows, C))]
   elif kind == 'ints':
     x = rng.randint(-3, 4, size=(rows, C)).astype(np.float64)
+  elif kind == 'signed-zeros':
+    # -0.0 and +0.0 are EQUAL scores: a tie like any other, to be broken toward the lowest class index
+    vals = np.array([-0.0, 0.0, -1.0, 0.5], np.float32)
+    x = vals[rng.choice(4, size=(rows, C), p=[.35, .35, .15, .15])]
+    return np.asarray(x, np.float32)
+  elif kind == 'int-typed':
+    # integer-typed scores (as in the docstring examples): small values of both signs, int32 or int8
+    return rng.randint(-4, 5, size=(rows, C)).astype([np.int32, np.int8][rng.randint(2)])
   else:
     raise ValueError(kind)
   x = x.astype(np.float32) + np.float32(0.0)   # -0.0 + 0.0 == +0.0
